@@ -61,9 +61,17 @@ def run_rules(spec: Spec, model: Model, tier: str, seed: int) -> Collector:
     }
     rules = list(spec.rules) + (list(spec.thorough_rules)
                                 if tier == "thorough" else [])
-    for rule in rules:
-        rule(coll)
+    # a rule that cannot decide (vanished anchor, fewer instances than confirmed by
+    # hand) does not stop the other rules: if one of them finds a specific
+    # violation that is what gets reported (exit 1, with a NOTE); only when
+    # nothing specific was found does the run end as ANALYSIS-ERROR (exit 2)
     coll.floor_errors = []
+    for rule in rules:
+        n_before = len(coll.obs)
+        try:
+            rule(coll)
+        except AnalysisError as e:
+            coll.floor_errors.append(f"{rule.__name__}: {e}")
     for rname, floor in spec.floors.items():
         n = coll.count(rule=rname)
         if n < floor:
